@@ -71,11 +71,12 @@ def _summary(hard, corr, name):
         base = h.real("base_to_add")
         kind, res = h.call_method(self, "get_national_summary_estimates", d, base, alpha)
         wrong = ndict.t != C.n
+        rps = lambda ev: {"target": "verif_replays:national_summary_dict_size_replay", "args": [bool(corr), bool(hard)], "check": "result['exc'] is None and result['ok']"}  # noqa: E731
         if kind == "raise":
-            h.ensures("raises_only_the_dedicated_error", res.clsname == "BootstrapElectionModelException", why=f"raised {res}")
-            h.ensures("raises_only_on_a_wrong_size_dictionary", wrong)
+            h.ensures("raises_only_the_dedicated_error", res.clsname == "BootstrapElectionModelException", why=f"raised {res}", replay=rps)
+            h.ensures("raises_only_on_a_wrong_size_dictionary", wrong, replay=rps)
             return
-        h.ensures("accepts_only_a_right_size_dictionary", z3.Not(wrong))
+        h.ensures("accepts_only_a_right_size_dictionary", z3.Not(wrong), replay=rps)
         pred, lower, upper = res["margin"]
         wt, pm = s["wt"], s["pm"]
         tot, dtot = sums.formal_sum_dom(h.ctx, C, z3.BoolVal(True), wt)
